@@ -155,6 +155,8 @@ func TestVerif_C13_Beacon(t *testing.T) {
 			if st.member.preferredDKGResultHash != mine {
 				t.Fatalf("harness: hash mismatch")
 			}
+			ring.NewCase()
+			ring.SetGenuine(1, mine, st.member.selfDKGResultSignature)
 			msgs := c.Get("msgs").List()
 			accepted := c.Get("accepted").List()
 			concrete := make([]vsup.Concrete, len(msgs))
